@@ -9,6 +9,7 @@ C01.c the filename escape/unescape tables are inverse: every escape the writer e
 C01.d blob encode/decode pairing: encrypt_data records an uncompressed length exactly on the path that compresses, and
   read_encrypted_from_partial decompresses exactly when one is recorded.
 C01.e offsets: file offsets advance by each blob's length (restore plan) and pack offsets by each appended length.
+C01.g (also) metadata is applied to every restored node completely and to directories after their content (C14.i).
 C01.g restore reuses existing destination content only for exact-size regular files and keeps read-back sources
   attached to the request they were verified for (C14.f, C14.h).
 C01.f restore writes each blob at the offset recorded for it, taken from the read of the matching range.
@@ -40,8 +41,8 @@ def run(ctx, rep):
     n += borrow(rep, ctx, C08, lambda o: o.rule == "C08.c", "C01.e")
     rep.floor("C01.e", "borrowed obligations", n, 4)
     # restore-side necessary conditions for byte equality (decided in C14)
-    n = borrow(rep, ctx, C14, lambda o: o.rule in ("C14.f", "C14.h"), "C01.g")
-    rep.floor("C01.g", "borrowed obligations", n, 3)
+    n = borrow(rep, ctx, C14, lambda o: o.rule in ("C14.f", "C14.h", "C14.i"), "C01.g")
+    rep.floor("C01.g", "borrowed obligations", n, 6)
     # ---- C01.c -------------------------------------------------------------------------------------
     ESC = prog.find1(r"^rustic_core::backend::node::escape_filename$")
     UNE = prog.find1(r"^rustic_core::backend::node::unescape_filename$")
